@@ -1,0 +1,34 @@
+//go:build verif
+
+package varint
+
+// Machine-checked contracts for /verif (govc). Comment-only: compiled only with -tags verif, adds no code.
+// Bit-vector arithmetic (exact Go semantics); the functions are loop-free, so these proofs are complete for all 2^64 values.
+
+//@ func (v Varint) MarshalSize
+//@   property C32
+//@   arith bv
+//@   pure
+//@   ensures result == vsize(uint64(v))
+
+//@ func (v Varint) MarshalTo
+//@   property C32
+//@   arith bv
+//@   requires len(buf) >= vsize(uint64(v))
+//@   modifies buf[*]
+//@   ensures [size] result == vsize(uint64(v))
+//@   ensures [bytes] encIs(buf, uint64(v))
+
+//@ func (v *Varint) Unmarshal
+//@   property C32
+//@   arith bv
+//@   modifies *v
+//@   ensures [consumed] result1 == nil ==> result0 >= 1 && result0 <= 9 && result0 <= len(buf)
+//@   ensures [error-consumes-nothing] result1 != nil ==> result0 == 0
+//@   ensures [roundtrip] forall(x, uint64, len(buf) >= vsize(x) && encIs(buf, x) ==> result1 == nil && uint64(*v) == x && result0 == vsize(x))
+
+//@ func (v Varint) Marshal
+//@   property C32
+//@   arith bv
+//@   ensures [size] len(result) == vsize(uint64(v))
+//@   ensures [bytes] encIs(result, uint64(v))
